@@ -10,6 +10,11 @@ def run(tier, seed):
     cov, failed, undec = D.run_det_unit(ctx, "slots")
     for u in undec:
         vd.add_undecided(u)
+    if tier == "thorough":
+        pr = D.run_vacuity_probes(ctx, "slots")
+        cov["vacuity_probes"] = {"expected_to_fail": pr["expected"], "failed_as_expected": pr["failed_as_expected"]}
+        if pr["vacuous"]:
+            vd.add_undecided("vacuity: probes that should fail verify: %s" % pr["vacuous"][:5])
     nat = None
     try:
         binary, _ = D.build_native()
